@@ -344,10 +344,11 @@ class RaopStream(Stream):
         """
         self.playback_manager.acquire()
         audio_file: Optional[AudioSource] = None
-        takeover_release = self.core.takeover(
-            Audio, Metadata, PushUpdater, RemoteControl
-        )
+        takeover_release = None
         try:
+            takeover_release = self.core.takeover(
+                Audio, Metadata, PushUpdater, RemoteControl
+            )
             client, context = await self.playback_manager.setup(self.core.service)
             context.credentials = extract_credentials(self.core.service)
             context.password = self.core.service.password
@@ -397,7 +398,8 @@ class RaopStream(Stream):
 
             await client.send_audio(audio_file, file_metadata, volume=volume)
         finally:
-            takeover_release()
+            if takeover_release:
+                takeover_release()
             if audio_file:
                 await audio_file.close()
             await self.playback_manager.teardown()
